@@ -45,6 +45,9 @@ Inductive case18 :=
 | CVal (x b lza lzp : N)
 (* n <= m with their buckets *)
 | CMono (n bn m bm : N)
+(* many values at once, in increasing order: (x, getBucket x, assembly lzcnt x, portable lzcnt x);
+   every value is judged as by CVal, every adjacent pair as by CMono; the worst code is returned *)
+| CBatch (l : list (N * N * N * N))
 (* consecutive periods on one histogram, run by one goroutine.
    http = false: read through VerifExtractHist (count, kept, total, min, max, 23 values; whether the
                  endpoint would print them is not visible);
@@ -53,8 +56,8 @@ Inductive case18 :=
    fresh: the histogram was created for this case (so the unfixed model can be compared exactly) *)
 | CHist (sampled http fresh : bool) (ps : list (obs_spec * observed))
 (* several goroutines observing (the union of their observations is given) while one reader ends
-   periods; reports of all periods in order, read through the hook *)
-| CConc (sampled : bool) (all : obs_spec) (reps : list observed)
+   periods; reports of all periods in order, read through the hook or (http) from /metrics *)
+| CConc (sampled http : bool) (all : obs_spec) (reps : list observed)
 (* counter: value before, the goroutines' add sequences, value after (read from /metrics) *)
 | CCounter (before : N) (adds : list (list N)) (after : N).
 
@@ -128,12 +131,12 @@ Definition check_hist (sampled http fresh : bool) (ps0 : list (obs_spec * observ
     (if fresh && seq_model_eq ring_index_old prints_old sampled http newHist ps then 3 else 2).
 
 (* ---------- concurrent observers + reader ---------- *)
-Definition check_conc (sampled : bool) (all : obs_spec) (reps : list observed) : N :=
+Definition check_conc (sampled http : bool) (all : obs_spec) (reps : list observed) : N :=
   let obs := expand all in
   let n := len obs in
   let counts_ok := fold_left (fun a o => a + r_count (o_rep o)) reps 0 =? n in
-  let kept_ok := forallb (fun o => r_kept (o_rep o) =? (if sampled then r_count (o_rep o) / 4 else r_count (o_rep o))) reps in
-  let total_ok := (fold_left (fun a o => a + r_total (o_rep o)) reps 0) mod two64 =? (fold_left N.add obs 0) mod two64 in
+  let kept_ok := forallb (fun o => (http && negb (r_printed (o_rep o))) || (r_kept (o_rep o) =? (if sampled then r_count (o_rep o) / 4 else r_count (o_rep o)))) reps in
+  let total_ok := http || ((fold_left (fun a o => a + r_total (o_rep o)) reps 0) mod two64 =? (fold_left N.add obs 0) mod two64) in
   let bsum := fold_left (fun a o => a + sum_snd (o_buckets o)) reps 0 =? n in
   (* every report: values are observations of the run, min <= p <= max *)
   let p_ok := forallb (fun o => let r := o_rep o in
@@ -163,6 +166,15 @@ Definition check_mono (n bn m bm : N) : N :=
     (if (bn =? getBucket n) && (bm =? getBucket m) then 0 else 1)
   else 2.
 
+Fixpoint check_batch (prev : option (N * N)) (l : list (N * N * N * N)) (worst : N) : N :=
+  match l with
+  | [] => worst
+  | (x, b, lza, lzp) :: r =>
+      let c1 := check_val x b lza lzp in
+      let c2 := match prev with Some (n, bn) => check_mono n bn x b | None => 0 end in
+      check_batch (Some (x, b)) r (N.max worst (N.max c1 c2))
+  end.
+
 Definition check_counter (before : N) (adds : list (list N)) (after : N) : N :=
   let all := concat adds in
   (* the property itself: after = before + sum, modulo 2^64 *)
@@ -174,11 +186,12 @@ Definition check18 (c : case18) : N :=
   match c with
   | CVal x b lza lzp => check_val x b lza lzp
   | CMono n bn m bm => check_mono n bn m bm
+  | CBatch l => check_batch None l 0
   | CHist sampled http fresh ps => check_hist sampled http fresh ps
-  | CConc sampled all reps => check_conc sampled all reps
+  | CConc sampled http all reps => check_conc sampled http all reps
   | CCounter before adds after => check_counter before adds after
   end.
 
 (* shorthand used by the generated case files *)
-Definition R (count kept total mn mx : N) (printed : bool) (p : list N) (bk : list (N * N)) : observed :=
+Definition Ob (count kept total mn mx : N) (printed : bool) (p : list N) (bk : list (N * N)) : observed :=
   mkObs (mkReport count kept total mn mx printed p) bk.
